@@ -426,6 +426,9 @@ pub fn decode_objects_with(
             None if var == 0 && !needs_data && (1..=16).any(|v| obj_size(group, v).is_some()) => {
                 ObjSize::Empty
             }
+            // the lenient reading takes a count-qualified header of an event group without looking for objects, whatever
+            // the variation (frozen analog events, g33, have no size table here)
+            None if dataless => ObjSize::Empty,
             None => return Err(DecodeError::UnknownObject(group, var)),
         };
         if needs_data {
